@@ -25,6 +25,14 @@ CLAIMED['C12'] = dict(level='other', design='DESIGN.md section 4 (C12)',
    text='Bounded stand-in (never counted as proved beyond the bound): every public member of DynamicBitset, the free binary operators and every iterator constructor/step are called once on an arbitrary bitset of size <= 8 (12 thorough) with arbitrary bits and compared, as named CBMC obligations, with the reference bit-vector semantics; positions and shift distances are full size_t, compound operators are compared with their binary counterparts on the same operands, std::vector<bool> is an assumed-contract stand-in whose operator[] precondition index < size() makes every access outside the bitset an obligation. Level other because the bitset size is bounded.',
    note='Bounded: size <= CAP, growth/shift results <= 2*CAP+4 (larger results are cut paths). Harness mode (pre/post as assume/assert around one call). Trusted: CBMC C++ front end on the shadow unit (T-INST of the iterator templates, R-COPYCTOR, R-CONST, R-THROW ... listed in the evidence), stand-in <vector>/<algorithm>. to_string, bitset<N> and vector<bool>&& members not under contract. One open known finding (shift distance > SIZE_MAX - size), three defects repaired by fix: commits.',
    technique='contract-based verification with CBMC in harness mode, bounded (size <= CAP): reference bit-vector postconditions per method over an assumed-contract std::vector<bool>')
+CLAIMED['C07'] = dict(level='other', design='DESIGN.md section 4 (C07)',
+   text='FIRST SENTENCE ONLY, bounded: the real splitString is called on join(quote(words)) for every list of up to 3 words of arbitrary non-NUL bytes (instances: 1x3, 2x2, 2x1, 3x1 bytes quick; up to 3x2 / 2x3 / 1x4 thorough) in every quoting style (escaped as the property states, whole word single- or double-quoted, every character in its own style), 1-2 separating blanks, optional leading/trailing blanks, and CBMC discharges that the result is exactly the word list (count, lengths, every byte). The file/environment/override half of C07 relates two evaluations of the whole handler (std::ifstream, getenv) and is not applicable to contract-based verification with the installed front end.',
+   note='Bounded word count/length; harness mode. Trusted: CBMC C++ front end on the shadow unit (R-NNS, R-ANON, R-ALIAS, R-RFOR, R-NEWSIZE), inline stand-in <string>/<vector>. Second and third sentence of the property are NOT decided.',
+   technique='contract-based verification with CBMC in harness mode, bounded: round-trip postcondition split(join(quote(words))) == words on the real splitString')
+CLAIMED['C04'] = dict(level='other', design='DESIGN.md section 4 (C04)',
+   text='PARTIAL and bounded: decides memory safety of the raw-memory code reachable from evaluation. (1) ArgListIterator: a cursor invariant (word index in 1..argc+1, character position inside the word, at the terminator only when the rest is pending as a value) is established by the constructor and preserved by operator++/determineNextArg from ANY state satisfying it, with all CBMC pointer/bounds checks on, argv of up to 4 separately allocated words of up to 5 arbitrary non-NUL bytes -- inductive, so every history of steps is covered; (2) ArgString2Array construction/destruction for every NUL-free string up to 6 bytes (argv layout, exact allocation sizes, matching delete[], no leak); (3) the two program-name copies of Handler, sliced out mechanically, for names of unbounded length; (4) a static scan listing every file of the argument-handling code that touches raw memory. The handler as a whole (boost, iostreams, std::function, TypedArg<...>) is outside the front end.',
+   note='Bounded argv/string sizes; termination and the only-std::exception clause not decided; typed destinations (TypedArg<T[N]>, containers) not under contract. Trusted: CBMC C++ front end on the shadow units (T-INST, R-NSDMI, R-CONST, R-THROW-cut listed in the evidence), stand-ins. One defect repaired by a fix: commit (program-name buffer one byte short, scalar delete).',
+   technique='contract-based verification with CBMC in harness mode, bounded: inductive cursor invariant for ArgListIterator, allocation/layout postconditions for ArgString2Array, sliced program-name copies against the strcpy contract')
 NA = {}
 def main():
     props = [json.loads(l) for l in open(os.path.join(V, 'properties.jsonl'))]
